@@ -412,7 +412,7 @@ class Array(metaclass=MetaArray):
                         _get_item(value, idx)
                     )
                     offsets[idx] = offset
-                    offset += extra[idx].size
+                    offset += _to_slot_size(extra[idx].size)
                 size = _to_slot_size(offset)
                 info.offsets = offsets
                 info.extra = extra
